@@ -738,7 +738,7 @@ func runC03(r *hx.Run, replay string) {
 			}
 			base = append(base, file)
 		}
-		cs := c03Case{Base: base, BaseMoves: rr.Intn(4) == 0}
+		cs := c03Case{Base: base, BaseMoves: rr.Intn(3) == 0}
 		cur := base.clone()
 		var snapshots []c03Tree
 		if len(base) >= 2 && rr.Intn(4) == 0 {
@@ -821,6 +821,27 @@ func runC03(r *hx.Run, replay string) {
 			// main independently edits a file the branch does not own: add an unrelated file
 			m := base.clone()
 			m = append(m, c03File{ID: 9000, Path: "rules/mainonly.yml", Rules: []c03Rule{{Name: "main:only", Expr: "up"}}})
+			if rr.Intn(2) == 0 {
+				// main also edits rule files the branch may touch: the branch is still judged against the fork point
+				for k, n := 0, 1+rr.Intn(2); k < n; k++ {
+					i := rr.Intn(len(base))
+					if len(m[i].Rules) == 0 {
+						continue
+					}
+					j := rr.Intn(len(m[i].Rules))
+					m[i].Rules = append([]c03Rule{}, m[i].Rules...)
+					switch rr.Intn(3) {
+					case 0:
+						m[i].Rules[j].Expr = hx.Pick(rr, c03Exprs) + " + 1"
+					case 1:
+						m[i].Rules[j].Label = "mainedit"
+					default:
+						if len(m[i].Rules) > 1 {
+							m[i].Rules = append(m[i].Rules[:j:j], m[i].Rules[j+1:]...)
+						}
+					}
+				}
+			}
 			cs.MainCommit = m
 		}
 		c03Eval(r, cs)
